@@ -404,6 +404,13 @@ def run_split(model: Model, modname, clsname, meth, rd: RefdomInfo, kwargs):
             return Obj(None, {"facets": "FACETS"})
         if name == "numpy.concatenate":
             return list(args[0])
+        if name == "numpy.tile" and len(args) == 2:
+            return ("tile", args[0], args[1])
+        if name == "numpy.argsort" and isinstance(args[0], tuple) and \
+                args[0][:1] == ("tile",):
+            from ..refcell import ColPerm
+            return ColPerm(f"the cells sorted by a {args[0][2]}-fold tiled "
+                           f"index: the blocks are interleaved")
         if name == "numpy.arange" and len(args) == 2:
             lo, hi = (Poly.coerce(a) for a in args)
             if hi - lo == NT:
@@ -543,7 +550,8 @@ def split_rules(model, rep, rule_geo, rule_blocks, rule_sub=None,
             srd = refdoms["RefTri" if ctor[0] == "MeshTri1" else "RefTet"]
             out += 1
             # blocks: every child is a whole-mesh block (no mask)
-            whole = all(not c.mask for c in cl.children)
+            whole = all(not c.mask for c in cl.children) and \
+                not getattr(cl, "permuted", None)
             _v(rep, rule_blocks, whole, f"{tag}:blocks",
                f"{len(cl.children)} whole-mesh blocks: child b of cell k is "
                f"simplex k + b*nt, so 'simplex % nt' is its parent",
@@ -970,7 +978,7 @@ MUTANTS = [
      (_QU, "            t = np.hstack((self.t[[0, 1, 3]], self.t[[1, 2, 3]]))",
       "            t = np.hstack((self.t[[0, 1, 3]], self.t[[1, 2, 3]]))"
       "[:, np.argsort(np.tile(np.arange(self.t.shape[1]), 2), "
-      "kind='stable')]"), None),
+      "kind='stable')]"), "C14-R2"),
     ("quadrilateral split leaves a gap",
      (_QU, "            t = np.hstack((self.t[[0, 1, 3]], self.t[[1, 2, 3]]))",
       "            t = np.hstack((self.t[[0, 1, 3]], self.t[[0, 1, 2]]))"),
